@@ -125,7 +125,7 @@ reg("C09", harness="c09_invert", level="exploration", deadline=(300, 1800),
                "parity block; end-to-end encode/erase/invert/re-encode for all patterns m<=10 (12).",
     level_note="general n x n (n>=5) and Cauchy survivor sets beyond the enumerated minors are theorems, not search results; trusted: ref/ref_gf.h "
                "Gaussian elimination.",
-    runs=[dict(flavour="sim")],
+    runs={"quick": [dict(flavour="sim")], "thorough": [dict(flavour="sim"), dict(flavour="lgt")]},
     rule="case = one matrix / one (m,k) / one survivor set / one minor / one erasure pattern; distinct_nontrivial = distinct (m,k) and region "
          "groups completed; evaluations = inversions or determinants compared with the reference.")
 
